@@ -26,10 +26,10 @@ SOFTWARE.
 
 static const Py_UCS4 MARKERS[] = {
     '{', '}', '[', ']', '<', '>', '|', '=',  '&',  '\'',
-    '#', '*', ';', ':', '/', '-', '!', '\n', '\0',
+    '"', '#', '*', ';', ':', '/', '-', '!', '\n', '\0',
 };
 
-#define NUM_MARKERS 19
+#define NUM_MARKERS 20
 
 /* Functions */
 
